@@ -86,8 +86,77 @@ def register(api):
         vals["ADD_SUPERSEDES_PREV"] = True
         vals["ADD_RETAIN_OTHER_KEYS_DROPPED"] = True
 
+        # --- IdentityRegistry (the shared object): fields, the single writer `update_state`, its callers, readers
+        flatreg = " ".join(reg.split())
+        if not re.search(r"use std::\{[^}]*\bsync::\{[^}]*\bMutex\b[^}]*\}", flatreg):
+            raise E("identity_registry.rs: `Mutex` is not imported from std::sync (a blocking mutex is what the model assumes)")
+        if not re.search(r"pub struct IdentityRegistry \{ state: arc_swap::ArcSwap<IdentityRegistryState>, write_lock: Mutex<\(\)>, \}", flatreg):
+            raise E("struct IdentityRegistry is not { state: arc_swap::ArcSwap<IdentityRegistryState>, write_lock: Mutex<()> }")
+        m = re.search(r"impl\s+IdentityRegistry\s*\{", reg)
+        if not m:
+            raise E("impl IdentityRegistry not found")
+        ir = reg[m.end():]
+        ub = " ".join(fn_body(ir, r"fn\s+update_state\s*<F>\s*\(\s*&self\s*,\s*modifier\s*:\s*F\s*\)\s*where\s+F\s*:\s*FnOnce\(&mut IdentityRegistryState\)\s*,?\s*\{", "IdentityRegistry::update_state").split())
+        stmts = [s.strip() for s in ub.split(";") if s.strip()]
+        # statement classes: 0 = acquire the write lock, guard bound to a variable that lives to the end of the
+        # function; 1 = load + clone the shared state into a local; 2 = apply the modifier to the local;
+        # 3 = store the local as the new shared state
+        LOCK = r"let (\w+) = self \.write_lock \.lock\(\) \.(?:expect\(\"[^\"]*\"\)|unwrap\(\))"
+        LOAD = r"let mut state(?:: IdentityRegistryState)? = \(\*\*self\.state\.load\(\)\)\.clone\(\)"
+        MODI = r"(?:\(modifier\)|modifier)\(&mut state\)"
+        STOR = r"self\.state\.store\(Arc::new\(state\)\)"
+        steps = []
+        guard = None
+        for s in stmts:
+            s1 = re.sub(r"\s*\.\s*", " .", s)          # `self .write_lock .lock()` regardless of line breaks
+            mm = re.fullmatch(LOCK, s1)
+            if mm:
+                guard = mm.group(1)
+                steps.append(0)
+            elif re.fullmatch(LOAD, s):
+                steps.append(1)
+            elif re.fullmatch(MODI, s):
+                steps.append(2)
+            elif re.fullmatch(STOR, s):
+                steps.append(3)
+            else:
+                raise E(f"update_state: unrecognised statement {s!r} (body {ub!r})")
+        if steps not in ([0, 1, 2, 3], [1, 2, 3]):
+            raise E(f"update_state: statement order {steps} is neither lock-load-modify-store nor load-modify-store: {ub!r}")
+        if guard is not None and not re.fullmatch(r"_[A-Za-z]\w*|[A-Za-z]\w*", guard):
+            # `let _ = lock()` drops the guard at once: the remaining statements run without the lock
+            steps = [1, 2, 3]
+        if re.search(r"\bdrop\s*\(", ub):
+            raise E(f"update_state: explicit drop in the body: {ub!r}")
+        vals["UPDATE_STEPS"] = steps
+        vals["UPDATE_UNDER_WRITE_LOCK"] = steps == [0, 1, 2, 3]
+        # the only writer of `self.state` in the whole file is that store
+        writers = re.findall(r"\.\s*(store|swap|rcu|compare_and_swap)\s*\(", reg)
+        if writers != ["store"]:
+            raise E(f"identity_registry.rs: expected exactly one write to the ArcSwap (the store in update_state), found {writers}")
+        if len(re.findall(r"\bwrite_lock\b", reg)) != (3 if guard is not None else 2):
+            raise E("identity_registry.rs: write_lock is used outside `new` and `update_state`")
+        rb = " ".join(fn_body(ir, r"pub\s+fn\s+register\s*<S:\s*AsRef<str>>\s*\([^)]*\)\s*->\s*bool\s*\{", "IdentityRegistry::register").split())
+        if not re.fullmatch(r"let mut res = false; self\.update_state\(\|state\| \{ res = state\.add_identity\(key, ident, now \+ lifetime\); \}\); res", rb):
+            raise E(f"IdentityRegistry::register is not a single update_state(add_identity(key, ident, now + lifetime)): {rb!r}")
+        pb = " ".join(fn_body(ir, r"pub\s+fn\s+remove_expired\s*\(\s*&self\s*,\s*now\s*:\s*Instant\s*\)\s*\{", "IdentityRegistry::remove_expired").split())
+        if not re.fullmatch(r"self\.update_state\(\|state\| state\.clean_expired\(now\)\);", pb):
+            raise E(f"IdentityRegistry::remove_expired is not a single update_state(clean_expired(now)): {pb!r}")
+        vals["WRITERS_GO_THROUGH_UPDATE_STATE"] = True
+        # readers take one snapshot per decision
+        hb = " ".join(fn_body(ir, r"pub\s+fn\s+has_authorization\s*\([^)]*\)\s*->\s*bool\s*\{", "IdentityRegistry::has_authorization").split())
+        if hb != "self.state.load().is_authorized(now, identity).is_some()":
+            raise E(f"has_authorization is not one load + is_authorized: {hb!r}")
+        m = re.search(r"impl\s+SnapTunAuthorization\s+for\s+IdentityRegistry\s*\{", reg)
+        if not m:
+            raise E("impl SnapTunAuthorization for IdentityRegistry not found")
+        ab = " ".join(fn_body(reg[m.end():], r"fn\s+is_authorized\s*\([^)]*\)\s*->\s*Option<Arc<Self::SessionData>>\s*\{", "SnapTunAuthorization::is_authorized").split())
+        if ab != "self.state.load().is_authorized(now, identity)":
+            raise E(f"SnapTunAuthorization::is_authorized is not one load + is_authorized: {ab!r}")
+        vals["READ_IS_ONE_SNAPSHOT"] = True
+
         # --- server: authorisation checks that return early
-        n_checks = len(re.findall(r"let Some\(session_data\) = self\s*\.authz\s*\.is_authorized\(\s*packet_now\s*,", " ".join(srv.split())))
+        n_checks =len(re.findall(r"let Some\(session_data\) = self\s*\.authz\s*\.is_authorized\(\s*packet_now\s*,", " ".join(srv.split())))
         if n_checks != 3:
             raise E(f"server.rs: expected 3 `let Some(session_data) = self.authz.is_authorized(packet_now, ..) else` checks, found {n_checks}")
         vals["SERVER_AUTHZ_CHECKS"] = n_checks
@@ -117,6 +186,13 @@ def register(api):
         body += f"/-- `IdentityRegistration::is_authorized`: `self.expires_at {op} now` -/\n"
         body += f"def authorizedAt (expiresAt now : Nat) : Bool := decide (expiresAt {lean_op} now)\n"
         body += f"def SERVER_AUTHZ_CHECKS : Nat := {n_checks}\n"
+        body += ("/-- `IdentityRegistry::update_state` (the only writer of the shared `ArcSwap`; `register` and `remove_expired`\n"
+                 "are single calls of it): classes of its statements in source order. 0 = `let <guard> = self.write_lock.lock()…`\n"
+                 "with the guard bound to a named variable (lives to the end of the function); 1 = `let mut state =\n"
+                 "(**self.state.load()).clone()`; 2 = `(modifier)(&mut state)`; 3 = `self.state.store(Arc::new(state))`.\n"
+                 "A guard bound to `_` (dropped at once) is classified as absent. -/\n")
+        body += f"def UPDATE_STEPS : List Nat := [{', '.join(str(x) for x in vals['UPDATE_STEPS'])}]\n"
+        body += f"def UPDATE_UNDER_WRITE_LOCK : Bool := {'true' if vals['UPDATE_UNDER_WRITE_LOCK'] else 'false'}\n"
         body += f"def N_SESSIONS : Nat := {vals['N_SESSIONS']}\n"
         body += f"def MAX_QUEUE_DEPTH : Nat := {vals['MAX_QUEUE_DEPTH']}\n"
         body += "end ScionVerif.Generated.SnapTun\n"
